@@ -1334,12 +1334,20 @@ func c19ModuleZips(c *hx.Ctx) {
 			t = c19ModFiles(r)
 			c.Count("modzip-files:c19")
 		case 1:
-			for _, f := range gen.ModuleFileList(r) {
+			var fs []gen.ZipFileSpec
+			if p, _ := hx.Guard(func() { fs = gen.ModuleFileList(r) }); p {
+				c.Count("modzip-files:generator-panic")
+			}
+			for _, f := range fs {
 				t = append(t, c19E{N: f.P, C: string(f.Content)})
 			}
 			c.Count("modzip-files:gen.ModuleFileList")
 		default:
-			for _, f := range gen.ValidModuleFileList(r) {
+			var fs []gen.ZipFileSpec
+			if p, _ := hx.Guard(func() { fs = gen.ValidModuleFileList(r) }); p {
+				c.Count("modzip-files:generator-panic")
+			}
+			for _, f := range fs {
 				t = append(t, c19E{N: f.P, C: string(f.Content)})
 			}
 			c.Count("modzip-files:gen.ValidModuleFileList")
